@@ -229,6 +229,14 @@ func (l *Lexer) readString(sep byte) (string, bool) {
 				ch = '\n'
 			case 't':
 				ch = '\t'
+			case 'a': // the other escapes strconv.Quote (the printer) produces
+				ch = '\a'
+			case 'b':
+				ch = '\b'
+			case 'f':
+				ch = '\f'
+			case 'v':
+				ch = '\v'
 			case 'u':
 				buf.WriteRune(l.readUnicode16())
 				continue
